@@ -45,6 +45,7 @@ GATES = {
     "aux-none": ["sign:aux-none"],
     "cache-invariant": ["tag-cache-checked"],
     "object-reuse-histories": ["reuse:key-object-signs-repeatedly", "reuse:signature-object-verified-under-other-key"],
+    "rare-byte-classes": ["sign:masked-secret-leading-zero-byte", "sign:boundary-secret"],
 }
 
 
@@ -234,7 +235,12 @@ def one_sign(ctx, rng, d, msg, aux, nflips, all_flips=False):
 
     if aux is None:
         ctx.count("sign:aux-none")
-    key = PrivateKey(d)
+    ko = outcome(PrivateKey, d)
+    ctx.monitor("key-constructor")
+    if ko[0] != "ok":
+        ctx.violation("key-constructor-refuses-valid-secret", f"PrivateKey({d:#x}) raised {ko[1]}", {"op": "sign", "secret": d, "msg": msg, "aux": aux})
+        return
+    key = ko[1]
     o = outcome(key.sign_schnorr, msg, aux)
     pk32 = ec.xonly_pub(d)
     exp, _ = ec.schnorr_sign(d, msg, aux if aux is not None else b"\x00" * 32)
@@ -297,6 +303,22 @@ def run_shard(desc, ctx):
     bs = boundary_secrets()
     for _ in range(1 if ctx.tier == "quick" else 8):
         object_reuse_history(ctx, rng)
+    # boundary secrets, one per shard (1, 2, n-1, n-2, ...), each is a valid key
+    one_sign(ctx, rng, bs[idx % len(bs)], rng.randbytes(32), rng.randbytes(32), nflips=1)
+    ctx.count("sign:boundary-secret")
+    # the masked secret t = d' xor H_aux(aux) starts with a zero byte when the two top bytes coincide (1 in 256):
+    # pick aux, then a secret whose even-Y form has that top byte
+    for _ in range(1 if ctx.tier == "quick" else 6):
+        aux = rng.randbytes(32)
+        h0 = ec.tagged_hash("BIP0340/aux", aux)[0]
+        for _try in range(200):
+            d = (h0 << 248) | rng.getrandbits(248)
+            if 1 <= d < N and ec.mul(d)[1] % 2 == 0:
+                break
+        else:
+            continue
+        ctx.count("sign:masked-secret-leading-zero-byte")
+        one_sign(ctx, rng, d, rng.randbytes(32), aux, nflips=1)
     for rnd in range(desc["rounds"]):
         for cls_i in range(4):
             if ctx.out_of_time():
